@@ -14,6 +14,7 @@ import (
 	"time"
 
 	"github.com/failsafe-go/failsafe-go"
+	"github.com/failsafe-go/failsafe-go/bulkhead"
 	"github.com/failsafe-go/failsafe-go/failsafegrpc"
 	"github.com/failsafe-go/failsafe-go/hedgepolicy"
 	"github.com/failsafe-go/failsafe-go/timeout"
@@ -42,6 +43,9 @@ type loopScenario struct {
 	Deadline    bool     `json:"deadline"`
 	ExecCtx     string   `json:"exec_ctx"` // none | cancellable
 	CancelCall  bool     `json:"cancel_call"`
+	// Tap: the server also installs failsafegrpc.NewServerInHandle with a bulkhead of one permit: "" none | "free" the
+	// permit is available | "full" the permit is held elsewhere, so every call is refused before the handler runs
+	Tap string `json:"tap,omitempty"`
 }
 
 type echoServer interface {
@@ -117,7 +121,16 @@ func runLoopback(sc loopScenario) (violation, sig string) {
 		}}},
 	}
 	lis := bufconn.Listen(1 << 20)
-	srv := grpc.NewServer(grpc.UnaryInterceptor(failsafegrpc.NewUnaryServerInterceptor[any](spols...)))
+	sopts := []grpc.ServerOption{grpc.UnaryInterceptor(failsafegrpc.NewUnaryServerInterceptor[any](spols...))}
+	var tapBH bulkhead.Bulkhead[any]
+	if sc.Tap != "" {
+		tapBH = bulkhead.With[any](1)
+		if sc.Tap == "full" {
+			tapBH.TryAcquirePermit()
+		}
+		sopts = append(sopts, grpc.InTapHandle(failsafegrpc.NewServerInHandle[any](tapBH)))
+	}
+	srv := grpc.NewServer(sopts...)
 	srv.RegisterService(&desc, echoImpl{})
 	go srv.Serve(lis)
 	defer srv.Stop()
@@ -139,10 +152,14 @@ func runLoopback(sc loopScenario) (violation, sig string) {
 	if sc.ExecCtx == "cancellable" {
 		ex = ex.WithContext(execCtx)
 	}
+	clientInterceptor := failsafegrpc.NewUnaryClientInterceptorWithExecutor[any](ex)
+	if sc.ExecCtx != "cancellable" {
+		clientInterceptor = failsafegrpc.NewUnaryClientInterceptor[any](cpols...) // the constructor that takes the policies
+	}
 	conn, err := grpc.NewClient("passthrough:///bufnet",
 		grpc.WithContextDialer(func(ctx context.Context, _ string) (net.Conn, error) { return lis.DialContext(ctx) }),
 		grpc.WithTransportCredentials(insecure.NewCredentials()),
-		grpc.WithUnaryInterceptor(failsafegrpc.NewUnaryClientInterceptorWithExecutor[any](ex)))
+		grpc.WithUnaryInterceptor(clientInterceptor))
 	if err != nil {
 		return fail("harness", "cannot create client: %v", err)
 	}
@@ -184,6 +201,22 @@ func runLoopback(sc loopScenario) (violation, sig string) {
 			s = "grpc-wire-metadata"
 		}
 		return fail(s, "%s", problems[0])
+	}
+	if sc.Tap == "full" {
+		// refused by the load limiting policy before any handler runs, whatever the client does about it
+		if attempts != 0 {
+			return fail("grpc-tap-admitted", "the tap handle's bulkhead was full, yet %d attempts reached the handler", attempts)
+		}
+		if callErr == nil {
+			return fail("grpc-tap-admitted", "the tap handle's bulkhead was full, yet the call succeeded")
+		}
+		return "", ""
+	}
+	if sc.Tap == "free" {
+		// the tap execution is over once the handle returned: its permit is free again
+		if !tapBH.TryAcquirePermit() {
+			return fail("grpc-tap-permit", "the tap handle's bulkhead permit was not released after the call")
+		}
 	}
 	if sc.CancelCall {
 		if status.Code(callErr) != codes.Canceled && !errors.Is(callErr, context.Canceled) {
@@ -250,6 +283,10 @@ func TestGRPCLoopback(t *testing.T) {
 		if rapid.Bool().Draw(t, "serverTimeout") {
 			sc.ServerStack = []string{"timeout"}
 		}
+		sc.Tap = rapid.SampledFrom([]string{"", "", "free", "full"}).Draw(t, "tap")
+		if sc.Tap == "full" {
+			sc.CancelCall = false // the handler that would wait for the cancellation is never reached
+		}
 		if v, sig := runLoopback(sc); v != "" {
 			harness.Violation(t, prop, test, sig, sc, "%+v: %s", sc, v)
 		}
@@ -259,7 +296,7 @@ func TestGRPCLoopback(t *testing.T) {
 		}
 		nt := merged && (sc.Metadata || sc.Deadline)
 		b, _ := json.Marshal(sc)
-		st.Case(string(b), nt, fmt.Sprintf("merged-context=%v", merged), fmt.Sprintf("metadata=%v", sc.Metadata), fmt.Sprintf("deadline=%v", sc.Deadline))
+		st.Case(string(b), nt, fmt.Sprintf("merged-context=%v", merged), fmt.Sprintf("metadata=%v", sc.Metadata), fmt.Sprintf("deadline=%v", sc.Deadline), "tap="+sc.Tap)
 		if nt {
 			st.Sample(string(b), func() any { return sc })
 		}
